@@ -174,12 +174,12 @@ PROPS = {
     "C02": {
         "facts": ['clause_kinds_covered'],
         "nt_rule": "unsat_or_learnt",
-        "level": "proof", "module": "Resolvo.Props.C02", "imports": ["Resolvo.MDet.CheckedProofs"],
-        "theorems": ["Resolvo.MDet.solveChecked_unsat_sound", "Resolvo.MDet.solveChecked_ok_solvable", "Resolvo.C02.unsat_certified", "Resolvo.C02.decideSolvable_correct", "Resolvo.C02.ok_solvable",
+        "level": "proof", "module": "Resolvo.Props.C02", "imports": ["Resolvo.MDet.CheckedProofs", "Resolvo.MDet.EncSound"],
+        "theorems": ["Resolvo.C02.encoder_never_excludes_a_solution", "Resolvo.MDet.encoder_sound", "Resolvo.MDet.clause_sound", "Resolvo.MDet.solveChecked_unsat_sound", "Resolvo.MDet.solveChecked_ok_solvable", "Resolvo.C02.unsat_certified", "Resolvo.C02.decideSolvable_correct", "Resolvo.C02.ok_solvable",
                      "Resolvo.C02.verdict_invariant", "Resolvo.Abs.fail_sound", "Resolvo.Sat.rup_sound", "Resolvo.Sat.decideSat'_iff",
                      "Resolvo.encodeAll_iff", "Resolvo.Abs.step_linv", "Resolvo.Abs.step_sinv"],
         "families": [("solve", SOLVE_Q), ("soft", SOFT_Q), ("conflictfree", CF_Q), ("hints", HINTS_Q)],
-        "explanation": "Proof of a certifying checker: every Unsolvable verdict of the implementation is re-derived by a kernel-verified checker from the implementation's own history (fail_sound), and compared with a verified independent decision procedure (decideSolvable_iff). Termination/completeness of the search (C02 (d)) is not proved.",
+        "explanation": "PROVED for the exact model itself, no checker in between (encoder_never_excludes_a_solution; every universe meeting the decidable provider contract, every problem / fuel / solver state carried over from earlier solves, sync and async, whatever the outcome): every valid selection of the hard problem satisfies, under the assignment it induces, every requires / constrains / lock / exclusion clause in the model's clause arena after the solve, read the way the model's own propagation reads it (positive literals of a requires clause from the cache of candidate variables) - no clause the encoder ever adds rules out a real solution; the at-most-one encoding is proved separately (C15) and what remains for the model itself is the CDCL core, covered by the checked model. Proof of a certifying checker: every Unsolvable verdict of the implementation is re-derived by a kernel-verified checker from the implementation's own history (fail_sound), and compared with a verified independent decision procedure (decideSolvable_iff). Termination/completeness of the search (C02 (d)) is not proved.",
         "assumptions": ["CandsKnown U (listed candidates have table entries) for the reference decision procedure",
                         "the verif-hooks history is emitted faithfully (an omitted event makes the checker reject, not accept)"],
     },
